@@ -2,8 +2,8 @@
    with a state below n, or inactive (manual activation only). *)
 From Coq Require Import List Arith Bool NArith.
 From FFSM2 Require Import Model.TaskList Model.BitArray Model.BitStream Model.Plan Model.Ancestors Model.Machine
-  Proofs.BitArrayProofs Proofs.MachineFrame Proofs.MachinePlan Proofs.MachineLife Proofs.GuardProofs Proofs.CycleProofs Proofs.PlanStep
-  Proofs.SerialProofs Proofs.LogProofs Proofs.MachineTop Model.Multi Generated.InitFacts Proofs.ConstructProofs Proofs.LifeMonitor Proofs.ActivationRounds Proofs.IndexSafety Proofs.FeatureProofs.
+  Proofs.BitArrayProofs Proofs.TaskListProofs Proofs.TaskListRun Proofs.PlanProofs Proofs.MachineFrame Proofs.MachinePlan Proofs.MachineLife Proofs.GuardProofs Proofs.CycleProofs Proofs.PlanStep
+  Proofs.SerialProofs Proofs.LogProofs Proofs.MachineTop Model.Multi Generated.InitFacts Proofs.ConstructProofs Proofs.LifeMonitor Proofs.ActivationRounds Proofs.IndexSafety Proofs.FeatureProofs Model.Script Proofs.Contract Proofs.Histories.
 Import ListNotations.
 
 (* loading what any instance of the same type saved, into any loader state: the loader ends with the saver's activity,
@@ -104,4 +104,39 @@ Theorem C12_saved_buffer_in_contract :
          n_ok cfg -> forall c0 : core P, saver_ok P cfg c0 -> buf_ok cfg (save P cfg c0).
 Proof. exact (load_buffer_in_contract). Qed.
 Print Assumptions C12_saved_buffer_in_contract.
+
+(* over whole histories: whatever in-contract histories (and callbacks) the saver and the loader have behind them,
+   load(save(saver)) into the loader leaves it with the saver's activity, by exactly the lifecycle change needed and
+   enter/exit/reenter callbacks only *)
+Theorem C12_between_any_two_histories :
+  forall (P : Type) (cfg : config) (orc orc' : oracle P),
+         wf_cfg cfg ->
+         wf_oracle P cfg orc ->
+         wf_oracle P cfg orc' ->
+         forall (lg lg' : bool) (ops ops' : list (api_op P)),
+         ops_ok P cfg orc (construct P cfg orc lg) ops ->
+         ops_ok P cfg orc' (construct P cfg orc' lg') ops' ->
+         (c_manual cfg = false -> is_on P cfg (run P cfg orc lg ops)) ->
+         (c_manual cfg = false -> is_on P cfg (run P cfg orc' lg' ops')) ->
+         let saver := run P cfg orc lg ops in
+         let loader := run P cfg orc' lg' ops' in
+         let loader' := load P cfg orc' (save P cfg (co P saver)) loader in
+         active P (co P loader') = active P (co P saver) /\
+         Inv P cfg loader' /\
+         (exists l : list (event P),
+            tr P loader' = l ++ tr P loader /\
+            change P cfg (active P (co P loader)) (active P (co P saver)) l /\ Forall (only_life P) l).
+Proof. exact (load_roundtrip_between_histories). Qed.
+Print Assumptions C12_between_any_two_histories.
+
+Theorem C12_reachable_states_can_be_saved :
+  forall (P : Type) (cfg : config) (orc : oracle P),
+         wf_cfg cfg ->
+         wf_oracle P cfg orc ->
+         forall (lg : bool) (ops : list (api_op P)),
+         ops_ok P cfg orc (construct P cfg orc lg) ops ->
+         (c_manual cfg = false -> is_on P cfg (run P cfg orc lg ops)) ->
+         saver_ok P cfg (co P (run P cfg orc lg ops)).
+Proof. exact (reachable_saver_ok). Qed.
+Print Assumptions C12_reachable_states_can_be_saved.
 
